@@ -57,7 +57,8 @@ def run(ctx):
     per = 8 if ctx.quick else 60
     jobs, mutctr, n = [], [0], 0
     for c in cells:
-        for ops in pick(by_class[c["class"]], rng, per):
+        # only TLS 1.3 has key updates and there are few TLS 1.3 suites: give those cells three times the scenarios
+        for ops in pick(by_class[c["class"]], rng, per * 3 if c["class"] == "tls13" else per):
             n += 1
             jobs.append(rl.job(n, "hs", c, rl.concretise(ops, rng, mutctr), rng, dyn=rng.random() < 0.6))
     out = rl.judge(ctx, jobs, "c25", 8 if ctx.quick else 16,
